@@ -76,11 +76,33 @@ func (m *Mast) loadPersisted(ctx context.Context, l string) (*mastNode, error) {
 	if m.debug {
 		fmt.Printf("loaded node %s->%v\n", l, node)
 	}
-	validateNode(ctx, &node, m)
+	err = checkLoadedNode(&node, m, l)
+	if err != nil {
+		return nil, err
+	}
 	if m.nodeCache != nil {
 		m.nodeCache.Add(cacheKey, &node)
 	}
 	return &node, nil
+}
+
+// checkLoadedNode reports a malformed stored node as an error (the checks
+// validateNode makes by panicking are for nodes built in memory).
+func checkLoadedNode(node *mastNode, m *Mast, l string) error {
+	if len(node.Key) != len(node.Value) || len(node.Link) != len(node.Key)+1 {
+		return fmt.Errorf("improperly-formatted node %s: %d keys, %d values, %d links",
+			l, len(node.Key), len(node.Value), len(node.Link))
+	}
+	if len(node.Key) > 1 {
+		cmp, err := m.keyOrder(node.Key[0], node.Key[1])
+		if err != nil {
+			return fmt.Errorf("node %s: key order: %w", l, err)
+		}
+		if cmp >= 0 {
+			return fmt.Errorf("node %s: keys out of order; ensure using same key order function as source", l)
+		}
+	}
+	return nil
 }
 
 func unmarshalNode(m *Mast, nodeBytes []byte, l string, node *mastNode) error {
@@ -98,6 +120,9 @@ func unmarshalStringNode(m *Mast, nodeBytes []byte, l string, node *mastNode) er
 	}
 	if len(stringNode.Key) != len(stringNode.Value) {
 		return fmt.Errorf("cannot unmarshal %s: mismatched keys and values", l)
+	}
+	if len(stringNode.Link) != 0 && len(stringNode.Link) != len(stringNode.Key)+1 {
+		return fmt.Errorf("cannot unmarshal %s: mismatched keys and links", l)
 	}
 	*node = mastNode{
 		Node{
